@@ -6,6 +6,8 @@ import (
 	"flag"
 	"fmt"
 	"net"
+	"os"
+	"path/filepath"
 	"reflect"
 	"strconv"
 	"testing"
@@ -31,6 +33,9 @@ type c16Doc struct {
 type c16Case struct {
 	Format string   `json:"format"`
 	Docs   []c16Doc `json:"docs"`
+	// Via: "unmarshal" feeds the documents to Unmarshal; "load" writes each to the same file and calls
+	// Load(path), the way the file watcher reloads a configuration
+	Via string `json:"via"`
 }
 
 func (d c16Doc) render(format string) []byte {
@@ -137,7 +142,7 @@ func mutateCfg(t *rapid.T, prev cfggen.Config) (cfggen.Config, string) {
 }
 
 func genC16(t *rapid.T) (c16Case, []string) {
-	c := c16Case{Format: rapid.SampledFrom([]string{"yaml", "json"}).Draw(t, "format")}
+	c := c16Case{Format: rapid.SampledFrom([]string{"yaml", "json"}).Draw(t, "format"), Via: rapid.SampledFrom([]string{"unmarshal", "load", "load"}).Draw(t, "via")}
 	w := cfggen.GenWorld(t)
 	cur := w.Cfg
 	if rapid.Bool().Draw(t, "start_with_filters") {
@@ -166,7 +171,20 @@ func genC16(t *rapid.T) (c16Case, []string) {
 
 type docLoader interface {
 	Unmarshal(b []byte) error
+	Load(path string) error
 	Config() chan config.ServerConfig
+}
+
+// feed hands a document to the loader the way the case asks for.
+func feed(l docLoader, via, dir string, doc []byte) error {
+	if via != "load" {
+		return l.Unmarshal(doc)
+	}
+	path := filepath.Join(dir, "tacquito.conf")
+	if err := os.WriteFile(path, doc, 0o600); err != nil {
+		return fmt.Errorf("HARNESS-BUG: %v", err)
+	}
+	return l.Load(path)
 }
 
 func newDocLoader(format string) docLoader {
@@ -200,6 +218,13 @@ func runC16(t failer, c c16Case) (lastGood int) {
 		c.Docs[i].Cfg.Restore()
 	}
 	l := newDocLoader(c.Format)
+	dir, derr := os.MkdirTemp("", "verif-c16-")
+	if derr != nil {
+		t.Fatalf("HARNESS-BUG: %v", derr)
+	}
+	defer os.RemoveAll(dir)
+	freshDir := filepath.Join(dir, "fresh")
+	_ = os.Mkdir(freshDir, 0o700)
 	type pub struct {
 		idx  int
 		val  config.ServerConfig
@@ -209,10 +234,10 @@ func runC16(t failer, c c16Case) (lastGood int) {
 	lastGood = -1
 	for i, d := range c.Docs {
 		doc := d.render(c.Format)
-		err := l.Unmarshal(doc)
+		err := feed(l, c.Via, dir, doc)
 		// what does a fresh loader say about this document?
 		fresh := newDocLoader(c.Format)
-		ferr := fresh.Unmarshal(doc)
+		ferr := feed(fresh, c.Via, freshDir, doc)
 		if (err == nil) != (ferr == nil) {
 			fail("acceptance-depends-on-history", "document %d (%s): loader with history returned %v, a fresh loader %v", i, d.Kind, err, ferr)
 		}
@@ -313,6 +338,7 @@ func classifyC16(c c16Case, labels []string) {
 		}
 	}
 	ev.Class("format:" + c.Format)
+	ev.Class("via:" + c.Via)
 	if nt {
 		ev.NonTrivial("c16", c)
 	}
